@@ -236,8 +236,8 @@ def _share_live_list_maintenance(ctx):
     sub = util.fresh_ctx(ctx)
     C10.check(sub)
     for o in sub.obs:
-        if (o["rule"] == "R10.2" and ("resyncs-live-list" in o["key"])) or o["rule"] == "R10.7":
-            ctx.ob("R17.7", o["key"].split("|", 1)[1] if o["key"].startswith(("R10.2|", "R10.7|")) else o["key"], o["ok"], o["site"], o["detail"], o["nontrivial"])
+        if (o["rule"] == "R10.2" and ("resyncs-live-list" in o["key"])) or o["rule"] == "R10.7" or (o["rule"] == "R10.6" and "vacant-snapshot" in o["key"]):
+            ctx.ob("R17.7", o["key"].split("|", 1)[1] if o["key"].startswith(("R10.2|", "R10.7|", "R10.6|")) else o["key"], o["ok"], o["site"], o["detail"], o["nontrivial"])
     ctx.floor("R17.7", 2)
     # R17.8 a long-lived listener that parks while another listener is being added / removed is still woken: the waker registration is never skipped
     # (poll / waker protocol shared with C04; `wakers_lock` is held by report_stream_dropped during every removal)
